@@ -157,6 +157,20 @@ def parseCheck (j : Json) : R Check :=
   | .str "limits" => pure .limits
   | _ => do return .hook (← j.getNat?)
 
+/-- one class of the MRO as far as one parameter is concerned: `[declares <p>_min, declares <p>_max, declares <p>_limits,
+defines check_<p>]` (the layout of C18) -/
+def parseLayer (j : Json) : R Frappy.ExtParams.Layer := do
+  match (← arr j) with
+  | [a, b, c, d] => return { declMin := ← a.getBool?, declMax := ← b.getBool?, declLimits := ← c.getBool?, ownCheck := ← d.getBool? }
+  | _ => throw "bad layer"
+
+/-- the chain of check functions: computed by the model from the class layout (`layers`, MRO order) when the harness
+gives one (generated classes); else taken as data (`checks`; shipped configurations of C06) -/
+def parseChecks (j : Json) : R (List Check) := do
+  match j.getObjVal? "layers" with
+  | .ok (.arr ls) => return chainOf (← ls.toList.mapM parseLayer) 0
+  | _ => (← fldArr j "checks").mapM parseCheck
+
 def parseAcc (t : Tables) (mod : String) (j : Json) : R (Acc JJ VV) := do
   let kind ← fldStr j "kind"
   let attr ← fldStr j "attr"
@@ -174,7 +188,7 @@ def parseAcc (t : Tables) (mod : String) (j : Json) : R (Acc JJ VV) := do
       isLimitsPair := (match j.getObjVal? "isLimitsPair" with | .ok (.bool b) => b | _ => false),
       readonly := ← fldBool j "readonly",
       constant := ← optS (← fld j "constant"), dt := mkDt t mod attr datainfo,
-      entry := ⟨← fldStr j "value", readerror⟩, checks := ← (← fldArr j "checks").mapM parseCheck,
+      entry := ⟨← fldStr j "value", readerror⟩, checks := ← parseChecks j,
       hasRead := ← fldBool j "hasRead", hasWrite := ← fldBool j "hasWrite", props }
   else
     let hasArg ← fldBool j "hasArg"
@@ -244,6 +258,16 @@ def msgJson : Msg JJ → Json
 def cacheJson (c : Cache VV) : Json :=
   jarr (c.flatMap (fun me => me.2.map (fun ae =>
     jarr [Json.str me.1, Json.str ae.1, Json.str ae.2.value, jopt (fun e : Node.Err => Json.str (nameOfCls e.cls)) ae.2.readerror])))
+
+def checkJson : Check → Json
+  | .limits => Json.str "limits"
+  | .hook i => jnat i
+
+/-- the check chains of the node as the model has them: `[module, attribute, chain]` -/
+def chainsJson (n : Node JJ VV) : Json :=
+  jarr (n.flatMap (fun m => m.accs.filterMap (fun a => match a with
+    | .param p => some (jarr [Json.str m.name, Json.str p.attr, jarr (p.checks.map checkJson)])
+    | .command _ => none)))
 
 def outJson (o : Outcome JJ VV) : Json :=
   Json.mkObj [("reply", replyJson o.reply), ("calls", jarr (o.calls.map callJson)),
@@ -330,7 +354,8 @@ def handle (j : Json) : R Json := do
     let n ← parseNode t (← fld j "node")
     let steps ← (← fldArr j "steps").mapM (fun s => do
       return (mkEnv t (← parseDrv (← fld s "drv")), ← parseReq (← fld s "req")))
-    return Json.mkObj [("outs", jarr ((runSteps n steps).map outJson)), ("before", cacheJson (cache n))]
+    return Json.mkObj [("outs", jarr ((runSteps n steps).map outJson)), ("before", cacheJson (cache n)),
+      ("chains", chainsJson n), ("wf", Json.bool (wfB predef n))]
   | "judge" =>
     -- every recorded exchange of the implementation against the specification, on the implementation's own cache
     let t ← parseTables (← fld j "oracle")
